@@ -4,6 +4,12 @@ CFG = {
     "32": dict(bases=[1 * B44, 2 * B44], size=1 << 32, committed=(1 << 20) - 8192, window=1 << 17, define="verif_cfg32", ptr=4),
     "16": dict(bases=[6 * B44, 7 * B44], size=1 << 16, committed=1 << 16, window=1 << 16, define="verif_cfg16", ptr=2),
 }
+# a pointer representation as wide as the host's but not the identity (region-relative offsets in 64 bits):
+# only the translation-level properties (C03, C04) run on it
+CFG64 = {
+    "64": dict(bases=[1 * B44, 2 * B44], size=1 << 32, committed=(1 << 20) - 8192, window=1 << 17, define="verif_cfg64", ptr=8),
+}
+CFG_XL = dict(CFG, **CFG64)
 APP_BASE = 5 * B44
 APP_SIZE = 1 << 17
 IDX_KINDS = ["char", "schar", "uchar", "short", "ushort", "int", "uint", "long", "ulong", "llong", "ullong"]
@@ -23,9 +29,9 @@ def fits(k, v):
     return lo(k) <= v <= hi(k)
 
 
-def drivers(part, ops):
+def drivers(part, ops, cfgs=None):
     out = []
-    for cfg, c in CFG.items():
+    for cfg, c in (cfgs or CFG).items():
         out.append(dict(name="ptr_%s_%s" % (part.lower(), cfg), src="ptr.cpp",
                         defines=["VERIF_CFG=" + c["define"], "PART_" + part],
                         ops=[o + cfg for o in ops]))
